@@ -4,8 +4,7 @@ the real `IRGenerator`, plus direct oracles on the real objects.
   correspondence  spec texts (generated models of harness/specgen.py, their one-violation injections of
                   harness/inject.py, hand-written seeds for every modelled error site) are parsed with the REAL parser;
                   the partial ASTs -- what `IRGenerator` is constructed with -- are reduced to the model's input (docs,
-                  annotations applied to members, examples, route attributes dropped: they do not take part in the type
-                  graph) and sent to `comp.compile`; the same texts go through the real `specs_to_ir`; the Api is dumped
+                  examples dropped; route attributes kept with their values) and sent to `comp.compile`; the same texts go through the real `specs_to_ir`; the Api is dumped
                   to the model's output format (types with parent / members / catch-all, aliases, routes with their three
                   types and deprecation, enumerated subtypes; every type expression in full, arguments included).
                   ok-vs-ok: the two dumps must be equal.  error-vs-error: the kind of the real `InvalidSpec` (message
@@ -77,6 +76,25 @@ def _lit(v, rx):
     return {'null': True}
 
 
+def _aval(v):
+    """the value of a route attribute in the driver's encoding"""
+    import struct
+    from stone.frontend import ast as A
+    if v is None:
+        return ['n']
+    if v is True or v is False:
+        return ['b', v]
+    if isinstance(v, int):
+        return ['i', str(v)]
+    if isinstance(v, float):
+        return ['f', str(struct.unpack('<Q', struct.pack('<d', v))[0])]
+    if isinstance(v, str):
+        return ['s', v]
+    if isinstance(v, A.AstTagRef):
+        return ['T', v.tag]
+    raise Unmodelled('attr-value:' + type(v).__name__)
+
+
 def _ref(r, rx):
     from stone.frontend.ast import AstTypeRef
     pos, kw = r.args
@@ -112,7 +130,9 @@ ANNOT_KINDS = {'Deprecated': 'deprecated', 'Omitted': 'omitted', 'Preview': 'pre
 def to_ast(partial_asts):
     """the model's input for the partial ASTs of the real parser -> (files, rx pairs, flags); raises Unmodelled.
     flag `annot-type-params`: `_create_annotation_type` (not modelled) resolves its parameter types with the same
-    `_resolve_type`, during registration: its messages are those of a modelled site raised at an unmodelled one"""
+    `_resolve_type`, during registration: its messages are those of a modelled site raised at an unmodelled one;
+    flags `('attr-line', path, lineno)`: where route attributes are set (the messages of `<Type>.check` are those of
+    the value of a route attribute only when they point there: defaults of fields raise the same ones)"""
     from stone.frontend import ast as A
     rx = {}
     out = []
@@ -152,7 +172,9 @@ def to_ast(partial_asts):
                 decls.append({'k': 'route', 'name': item.name, 'version': item.version,
                               'arg': _ref(item.arg_type_ref, rx), 'result': _ref(item.result_type_ref, rx),
                               'error': _ref(item.error_type_ref, rx) if item.error_type_ref is not None else None,
-                              'deprecated': dep})
+                              'deprecated': dep, 'attrs': [[a.name, _aval(a.value)] for a in (item.attrs or [])]})
+                for a in (item.attrs or []):
+                    flags.add(('attr-line', a.path, a.lineno))
             elif isinstance(item, A.AstImport):
                 decls.append({'k': 'import', 'target': item.target})
             elif isinstance(item, A.AstAnnotationDef):
@@ -318,7 +340,22 @@ TEMPLATES = [
     (r"Route %s must specify three data types" % Q, 'routeTwoTypes'),
     (r"Undefined route %s at version" % Q, 'undefinedRoute'),
     (r"%s must be a route\." % Q, 'notRoute'),
+    (r"No routes can be defined in the stone_cfg namespace\.", 'cfgRoutes'),
+    (r"Only a struct named 'Route' can be defined in the stone_cfg namespace\.", 'cfgNotRoute'),
+    (r"Route attribute %s is not defined in 'stone_cfg\.Route'\." % Q, 'attrUnknown'),
+    (r"Route does not define attr key %s\." % Q, 'attrMissing'),
+    (r"Route attribute %s cannot be set: only attributes of" % Q, 'attrNotSettable'),
 ]
+# the messages of `<Type>.check` / `<Type>.check_attr_repr`: the value of a route attribute, when raised at one
+VALUE_TEMPLATES = [
+    r"void type can only be null", r".* is not valid bytes", r"boolean is not a valid (integer|real number)",
+    r".* is not a valid (integer|real number|boolean|string|union tag)", r"-?\d+ is not within range",
+    r"-?\d+ is (less|greater) than -?\d+", r".* is too large for float", r".* cannot be represented as a float exactly",
+    r".* values are not supported", r"-?[\d.]+ is (less|greater) than -?[\d.]+", r"'.*' has (more|fewer) than \d+ character",
+    r"'.*' did not match pattern", r"timestamp must be specified as a string", r"time data .* does not match format",
+    r"unconverted data remains", r"Expected union tag as value\.", r"invalid reference to (non-void option|unknown tag)",
+]
+_VALUE_TEMPLATES = [re.compile(p, re.S) for p in VALUE_TEMPLATES]
 _TEMPLATES = [(re.compile(p, re.S), k) for p, k in TEMPLATES]
 
 # error kinds of the annotation stage (Field/Alias.set_annotations, _resolve_annotation_type, _validate_annotations)
@@ -333,18 +370,56 @@ NO_VERDICT = ('outOfFuel', 'fuelAlias', 'fuelAncestors', 'fuelImports', 'interna
 SAME_MESSAGE = {'tagFieldClash': 'dupField'}
 
 # messages that an unmodelled site raises too (annotations applied to members resolve `ns.Annotation` the same way)
-AMBIGUOUS = {'nsNotImported', 'notNamespace'}
+AMBIGUOUS = {'nsNotImported', 'notNamespace', 'attrValue'}
 # the kinds `_resolve_type` raises: ambiguous when an annotation type has parameters (see `to_ast`)
 RESOLVE_KINDS = {'nsNotImported', 'notNamespace', 'undefinedSymbol', 'voidNullable', 'routeRef', 'notDataType', 'attrsOnUser',
                  'params.missingPositional', 'params.tooManyPositional', 'params.unknownKeyword',
                  'params.positionalAsKeyword', 'params.badArgument', 'circular', 'nullableNullable'}
 
 
-def kind_of_message(msg):
+def kind_of_message(msg, st=None, flags=()):
     for rxp, k in _TEMPLATES:
         if rxp.match(msg):
             return k
+    if st is not None and len(st) >= 4 and ('attr-line', st[3], st[2]) in flags:
+        for rxp in _VALUE_TEMPLATES:
+            if rxp.match(msg):
+                return 'attrValue'
     return None
+
+
+def compile_real(files, limit_s=20, fast=True):
+    """`faithful.compile_guarded` (the shared fast path of `layout.compile_files`) that also says where an
+    `InvalidSpec` points: -> ('ok', api) | ('invalid', msg, lineno, path) | ('crash', exception type name)"""
+    import contextlib
+    import io
+    import signal
+    core.ensure_repo_on_path()
+    from stone.frontend import frontend
+    from stone.frontend.exception import InvalidSpec
+    old = signal.signal(signal.SIGALRM, faithful._alarm)
+    signal.alarm(limit_s)
+    real = frontend.ParserFactory
+    if fast:
+        frontend.ParserFactory = layout._SharedFactory
+    try:
+        with contextlib.redirect_stdout(io.StringIO()), contextlib.redirect_stderr(io.StringIO()):
+            api = frontend.specs_to_ir([(p, t) for p, t in files])
+    except InvalidSpec as e:
+        return ('invalid', '%s' % (e.msg,), e.lineno, e.path)
+    except faithful._Timeout:
+        return ('crash', 'Timeout')
+    except RecursionError:
+        return ('crash', 'RecursionError')
+    except Exception as e:                       # noqa: BLE001 -- C03 judges escapes
+        return ('crash', type(e).__name__)
+    finally:
+        signal.alarm(0)
+        signal.signal(signal.SIGALRM, old)
+        frontend.ParserFactory = real
+    if api is None:
+        return ('invalid', 'parse errors', None, None)
+    return ('ok', api)
 
 
 # ------------------------------------------------------------------------------------------------ direct oracle (b)
@@ -553,7 +628,7 @@ def prepare(files):
 
 def judge_case(ck, files, origin, asts, reply, real=None, flags=()):
     """compare one prepared case; `reply` = the driver's answer"""
-    st = real if real is not None else faithful.compile_guarded(files, fast=True)
+    st = real if real is not None else compile_real(files)
     case = {'suite': 'comp.compile', 'origin': origin, 'specs': _files(files)}
     if 'protocol_error' in reply:
         ck.stat('comp.protocol_error')
@@ -602,7 +677,7 @@ def judge_case(ck, files, origin, asts, reply, real=None, flags=()):
             ck.agree('comp.theorem_instances')
         return st
     # real: InvalidSpec
-    rk = kind_of_message(st[1])
+    rk = kind_of_message(st[1], st, flags)
     ambiguous = set(AMBIGUOUS)
     if 'annot-type-params' in flags:
         ambiguous |= RESOLVE_KINDS
@@ -681,7 +756,7 @@ def judge_legal(ck, files, origin, hy, st, flags=(), report=False):
                 ck.failing_input('C01: the compiler accepts a set of specs that violates a rule (%s)' % hy.get('why'),
                                  {'kind': 'illegal-accepted', 'rule': str(hy.get('why'))}, case)
         return
-    rk = kind_of_message(st[1])
+    rk = kind_of_message(st[1], st, flags)
     ambiguous = set(AMBIGUOUS)
     if 'annot-type-params' in flags:
         ambiguous |= RESOLVE_KINDS
@@ -730,7 +805,7 @@ def run_batch(ck, batch, legal_report=False):
         reply = next(replies)
         if legal_report:
             # property C01: only the verdict is judged here (the Api comparison and its oracles are C02's)
-            st = faithful.compile_guarded(files, fast=True)
+            st = compile_real(files)
         else:
             st = judge_case(ck, files, origin, asts, reply, flags=flags)
         judge_legal(ck, files, origin, next(hyps), st, flags=flags, report=legal_report)
@@ -746,6 +821,8 @@ def _ns(body, name='na'):
 
 # one spec per modelled error site (and a few accepted corner cases); (label, files, expected kind or 'ok')
 AN = '''annotation Dep = Deprecated()\n\nannotation Pre = Preview()\n\nannotation Omi = Omitted("internal")\n\nannotation Blot = RedactedBlot()\n\nannotation Hash = RedactedHash("x")\n\n'''
+
+CFG = ('cfg.stone', 'namespace stone_cfg\n\nstruct Route\n    auth String = "user"\n    host String?\n    style String\n')
 
 SEEDS = [
     ('symbolDefined', [('a.stone', _ns('struct S\n    x String\n\nunion S\n    a\n'))], 'symbolDefined'),
@@ -870,6 +947,40 @@ SEEDS = [
     ('annot-in-patch', [('a.stone', _ns('%sstruct S\n    x String\n\npatch struct S\n    y String\n        @Dep\n        @Pre\n' % AN))], 'deprecatedPreview'),
     ('qualified-builtin', [('a.stone', _ns('import nb\n\nstruct T\n    y String\n\nstruct S\n    x nb.List(T)\n')),
                            ('b.stone', _ns('struct T\n    z Int32\n', 'nb'))], 'ok'),
+    # route attributes and `stone_cfg`
+    ('attrs-ok', [CFG, ('a.stone', _ns('route r(Void, Void, Void)\n    attrs\n        style = "rpc"\n        host = null\n'))], 'ok'),
+    ('attrs-all', [CFG, ('a.stone', _ns('route r(Void, Void, Void)\n    attrs\n        style = "rpc"\n        host = "h"\n        auth = "app"\n'))], 'ok'),
+    ('attrMissing', [CFG, ('a.stone', _ns('route r(Void, Void, Void)\n'))], 'attrMissing'),
+    ('attrMissing-other', [CFG, ('a.stone', _ns('route r(Void, Void, Void)\n    attrs\n        host = "h"\n'))], 'attrMissing'),
+    ('attrUnknown', [CFG, ('a.stone', _ns('route r(Void, Void, Void)\n    attrs\n        style = "rpc"\n        zzz = 1\n'))], 'attrUnknown'),
+    ('attrUnknown-no-cfg', [('a.stone', _ns('route r(Void, Void, Void)\n    attrs\n        style = "rpc"\n'))], 'attrUnknown'),
+    ('attrs-no-cfg-none', [('a.stone', _ns('route r(Void, Void, Void)\n'))], 'ok'),
+    ('attrs-cfg-no-route', [('cfg.stone', _ns('alias A = String\n', 'stone_cfg')), ('a.stone', _ns('route r(Void, Void, Void)\n'))], 'ok'),
+    ('attrUnknown-cfg-no-route', [('cfg.stone', _ns('alias A = String\n', 'stone_cfg')),
+                                  ('a.stone', _ns('route r(Void, Void, Void)\n    attrs\n        a = 1\n'))], 'attrUnknown'),
+    ('cfgRoutes', [('cfg.stone', _ns('struct Route\n    style String?\n\nroute q(Void, Void, Void)\n', 'stone_cfg'))], 'cfgRoutes'),
+    ('cfgNotRoute', [('cfg.stone', _ns('struct Route\n    style String?\n\nstruct Other\n    x String\n', 'stone_cfg'))], 'cfgNotRoute'),
+    ('cfgNotRoute-union', [('cfg.stone', _ns('union Route\n    a\n', 'stone_cfg'))], 'cfgNotRoute'),
+    ('attrNotSettable-list', [('cfg.stone', _ns('struct Route\n    l List(String)?\n', 'stone_cfg')),
+                              ('a.stone', _ns('route r(Void, Void, Void)\n    attrs\n        l = "a"\n'))], 'attrNotSettable'),
+    ('attrs-list-null', [('cfg.stone', _ns('struct Route\n    l List(String)?\n', 'stone_cfg')),
+                         ('a.stone', _ns('route r(Void, Void, Void)\n    attrs\n        l = null\n'))], 'ok'),
+    ('attrNotSettable-struct', [('cfg.stone', _ns('import nb\n\nstruct Route\n    s nb.S?\n', 'stone_cfg')),
+                                ('b.stone', _ns('struct S\n    x String\n', 'nb')),
+                                ('a.stone', _ns('route r(Void, Void, Void)\n    attrs\n        s = x\n'))], 'attrNotSettable'),
+    ('attrs-inherited', [('cfg.stone', _ns('import nb\n\nstruct Route extends nb.Base\n    style String\n', 'stone_cfg')),
+                         ('b.stone', _ns('struct Base\n    owner String\n', 'nb')),
+                         ('a.stone', _ns('route r(Void, Void, Void)\n    attrs\n        style = "rpc"\n        owner = "me"\n'))], 'ok'),
+    ('attrMissing-inherited', [('cfg.stone', _ns('import nb\n\nstruct Route extends nb.Base\n    style String\n', 'stone_cfg')),
+                               ('b.stone', _ns('struct Base\n    owner String\n', 'nb')),
+                               ('a.stone', _ns('route r(Void, Void, Void)\n    attrs\n        style = "rpc"\n'))], 'attrMissing'),
+    ('attrs-alias-nullable', [('cfg.stone', _ns('alias A = String?\n\nstruct Route\n    x A\n', 'stone_cfg')),
+                              ('a.stone', _ns('route r(Void, Void, Void)\n\nroute q(Void, Void, Void)\n    attrs\n        x = null\n'))], 'ok'),
+    ('attrs-union', [('cfg.stone', _ns('import nb\n\nstruct Route\n    mode nb.Mode\n', 'stone_cfg')),
+                     ('b.stone', _ns('union Mode\n    fast\n    slow\n', 'nb')),
+                     ('a.stone', _ns('route r(Void, Void, Void)\n    attrs\n        mode = fast\n'))], 'ok'),
+    ('attrs-two-namespaces', [CFG, ('a.stone', _ns('route r(Void, Void, Void)\n    attrs\n        style = "rpc"\n')),
+                              ('b.stone', _ns('route q(Void, Void, Void)\n', 'nb'))], 'attrMissing'),
     ('two-files-one-ns', [('a1.stone', _ns('struct S\n    x T\n    l List(A, min_items=1, max_items=3)?\n')),
                           ('a2.stone', _ns('struct T\n    y Map(String, S?)\n\nalias A = T\n'))], 'ok'),
 ]
@@ -882,7 +993,8 @@ def suite_seeds(ck, legal_report=False):
         if st is None:
             ck.note('comp seed %s was skipped (outside the modelled input)' % label)
             continue
-        got = 'ok' if st[0] == 'ok' else (kind_of_message(st[1]) if st[0] == 'invalid' else 'crash')
+        got = 'ok' if st[0] == 'ok' else (kind_of_message(st[1], st, {('attr-line', st[3], st[2])} if len(st) >= 4 else ())
+                                          if st[0] == 'invalid' else 'crash')
         ck.hist('comp.seed', '%s:%s' % (label, got))
         if got != expect:
             # the seed no longer exercises the site it was written for (not a verdict on stone: the comparison above is)
@@ -974,7 +1086,7 @@ def replay_legal(ck, case):
         print(' outside the modelled input now: %s' % pre[1])
         return 0
     hy = _driver(ck, [dict(pre[2], op='comp.hyps')])[0]
-    st = faithful.compile_guarded(files, fast=False)
+    st = compile_real(files, fast=False)
     print(' Legal = %s%s ; the compiler answers: %s %s' % (hy.get('legal'), '' if hy.get('legal') else ' (fails: %s)' % hy.get('why'),
                                                            st[0], '' if st[0] == 'ok' else st[1]))
     before = len(ck.violations)
